@@ -19,6 +19,15 @@ def keyFn (name : String) : Except String (Val → Nat) :=
   | "const" => .ok fun _ => 5
   | _ => .error "keyFn"
 
+/-- user partition functions that may return NEGATIVE numbers: `f(key) % n` is Python's floor-mod, whose result lies
+in `[0, n)`; the model's partition function is the already reduced one -/
+def keyFnInt (name : String) : Option (Val → Int) :=
+  match name with
+  | "identz" => some fun | .int i => i | _ => 0
+  | "shift" => some fun | .int i => i - 3 | _ => -3
+  | "negate" => some fun | .int i => -i | _ => 0
+  | _ => none
+
 def handle (j : Json) : Json := run do
   let op ← getStr j "op"
   match op with
@@ -36,7 +45,10 @@ def handle (j : Json) : Json := run do
   | "partitionBy" =>
     let ps ← getLayout j "layout"; let n ← getNat j "n"
     if n = 0 then throw "partitionBy 0"
-    let f ← keyFn (← getStr j "f")
+    let fname ← getStr j "f"
+    let f ← match keyFnInt fname with
+      | some fi => pure fun k => (Int.fmod (fi k) n).toNat
+      | none => keyFn fname
     let pairs ← ps.mapM fun p => p.mapM fun
       | .tup [k, v] => Except.ok (k, v)
       | _ => .error "not a pair"
